@@ -78,7 +78,7 @@ Print Assumptions c17_counter_cleared.
     logout callback (redirected to <matching path>/oauth2/login resp. /logout), and for every other failed krequest
     (retried on its own URL) provided the matching path is a prefix of the krequest path at a segment boundary. *)
 Theorem c17_retry_cookie_returns : forall e q v u,
-  let mp := matching_path (e_paths e) (q_path q) in
+  let mp := e_mp e (q_path q) in
   mp = [] \/ wf_path mp -> wf_path (q_path q) ->
   (q_ep q = EpCallback \/ q_ep q = EpLogoutCallback \/ seg_prefix mp (q_path q)) ->
   path_match (q_path (retry_target e q)) (jar_path u (site_emit (e_cfg e) mp S_error_set_retry v 0)) = true.
@@ -87,14 +87,36 @@ Proof.
 Qed.
 Print Assumptions c17_retry_cookie_returns.
 
-(** Refutation without the segment-boundary hypothesis: ingress paths "" and "/o" on one host. A failing
+(** With Ingresses.MatchingPath matching on segment boundaries (code since a1203b1, model flag cf_seg_prefix = true)
+    the matching path is a segment-boundary prefix of the request path by construction ... *)
+Theorem c17_matching_path_on_segment_boundary : forall paths req,
+  let mp := matching_path true paths req in
+  mp = [] \/ req = mp \/ exists r, req = mp ++ 47%N :: r.
+Proof. exact matching_path_seg. Qed.
+Print Assumptions c17_matching_path_on_segment_boundary.
+
+(** ... so the retry cookie's Path covers the retry target for EVERY failed request, whatever the endpoint and the
+    set of ingress paths: no side hypothesis left (the two well-formedness premises hold for every configuration
+    whose ingresses parse, CookieJarP.matching_path_wf, and for every request path, which starts with "/"). *)
+Theorem c17_retry_cookie_returns_fixed : forall e q v u,
+  cf_seg_prefix (e_cfg e) = true ->
+  let mp := e_mp e (q_path q) in
+  mp = [] \/ wf_path mp -> wf_path (q_path q) ->
+  path_match (q_path (retry_target e q)) (jar_path u (site_emit (e_cfg e) mp S_error_set_retry v 0)) = true.
+Proof.
+  intros e q v u Hs mp Hw Hq. rewrite (retry_path (e_cfg e) mp v Hw u). now apply retry_target_covered_seg.
+Qed.
+Print Assumptions c17_retry_cookie_returns_fixed.
+
+(** Refutation without the segment-boundary hypothesis, for the OLD variant of MatchingPath (strings.HasPrefix,
+    cf_seg_prefix = false, code before a1203b1): ingress paths "" and "/o" on one host. A failing
     GET /oauth2/login has matching path "/o" (strings.HasPrefix), the counter cookie gets Path=/o, which does not
     path-match /oauth2/login; the browser never returns it and is redirected for ever (here: 50 of 50 requests). *)
-Definition lookalike_cfg : kconfig :=
+Definition lookalike_cfg (seg : bool) : kconfig :=
   {| cf_secure := true; cf_samesite := b "Lax"; cf_prefix := b "io.nais.wonderwall";
      cf_ingresses := [b "https://h.example.com"; b "https://h.example.com/o"];
      cf_sso_server := false; cf_sso_domain := []; cf_sso_name := []; cf_legacy := false;
-     cf_rl_enabled := true; cf_rl_logins := 5; cf_rl_window := 5000000000 |}.
+     cf_rl_enabled := true; cf_rl_logins := 5; cf_rl_window := 5000000000; cf_seg_prefix := seg; cf_rl_ceil := true |}.
 
 Definition env_of (c : kconfig) (host : string) : site_env :=
   {| e_cfg := c; e_ingresses := match parse_ingresses_full c with Some l => l | None => [] end;
@@ -103,14 +125,23 @@ Definition env_of (c : kconfig) (host : string) : site_env :=
 Definition rq (ep : kendpoint) (path : string) : breq := {| q_ep := ep; q_path := b path; q_prompt := false |}.
 
 Theorem c17_retry_scope_refuted :
-  validate_cookie lookalike_cfg = VOk /\ parse_ingresses lookalike_cfg = Some [[]; b "/o"] /\
-  let e := env_of lookalike_cfg "h.example.com" in
+  validate_cookie (lookalike_cfg false) = VOk /\ parse_ingresses (lookalike_cfg false) = Some [[]; b "/o"] /\
+  let e := env_of (lookalike_cfg false) "h.example.com" in
   let q := rq EpLogin "/oauth2/login" in
-  matching_path (e_paths e) (q_path q) = b "/o" /\
+  e_mp e (q_path q) = b "/o" /\
   path_match (q_path (retry_target e q)) (b "/o") = false /\
   fst (follow 50 e false {| b_jar := []; b_now := 0; b_session := false |} q (repeat (CFErr 500) 60)) = repeat 307 50.
 Proof. vm_compute. repeat split; reflexivity. Qed.
 Print Assumptions c17_retry_scope_refuted.
+
+(** the same deployment with the fixed MatchingPath: matching path "", cookie Path=/, three retries, then the page *)
+Example c17_retry_scope_fixed :
+  let e := env_of (lookalike_cfg true) "h.example.com" in
+  let q := rq EpLogin "/oauth2/login" in
+  e_mp e (q_path q) = [] /\
+  e_mp e (b "/o/oauth2/login") = b "/o" /\
+  fst (follow 50 e false {| b_jar := []; b_now := 0; b_session := false |} q (repeat (CFErr 500) 60)) = [307; 307; 307; 500].
+Proof. vm_compute. repeat split; reflexivity. Qed.
 
 (** Non-vacuity, on the composed model (handlers + jar + following browser): with the single ingress
     https://h.example.com/app a provider that keeps failing yields 307, 307, 307, 500; a callback that keeps
@@ -120,7 +151,7 @@ Definition single_cfg : kconfig :=
   {| cf_secure := true; cf_samesite := b "Lax"; cf_prefix := b "io.nais.wonderwall";
      cf_ingresses := [b "https://h.example.com/app"];
      cf_sso_server := false; cf_sso_domain := []; cf_sso_name := []; cf_legacy := false;
-     cf_rl_enabled := true; cf_rl_logins := 5; cf_rl_window := 5000000000 |}.
+     cf_rl_enabled := true; cf_rl_logins := 5; cf_rl_window := 5000000000; cf_seg_prefix := true; cf_rl_ceil := true |}.
 
 Example c17_nonvacuous :
   let e := env_of single_cfg "h.example.com" in
@@ -131,7 +162,7 @@ Example c17_nonvacuous :
   (let b1 := snd (follow 50 e false b0 (rq EpLogin "/app/oauth2/login") (repeat (CFErr 500) 20)) in
    let b2 := run_jar_seq e b1 [(0, rq EpLogin "/app/oauth2/login", CFNone); (0, rq EpCallback "/app/oauth2/callback", CFNone)] in
    fst (follow 50 e false b2 (rq EpLogin "/app/oauth2/login") (repeat (CFErr 500) 20)) = [307; 307; 307; 500]) /\
-  seg_prefix (matching_path (e_paths e) (b "/app/oauth2/login")) (b "/app/oauth2/login").
+  seg_prefix (e_mp e (b "/app/oauth2/login")) (b "/app/oauth2/login").
 Proof. vm_compute. repeat split; try reflexivity. right. right. eexists. reflexivity. Qed.
 
 (** (5) rate limit. [rl_step] is the logincount cookie seen by the rate limiter for a browser whose session cookie
@@ -175,23 +206,83 @@ Proof.
 Qed.
 Print Assumptions c17_never_limited.
 
-(** Refutation of "the counter lapses after the window" for windows that are not whole seconds: the cookie's Max-Age is
+(** Refutation of "the counter lapses after the window" for windows that are not whole seconds, for the OLD variant
+    of applyLoginRateLimit (cf_rl_ceil = false, code before c75583b): the cookie's Max-Age is
     int(window.Seconds()); for 500ms that is 0, i.e. no Max-Age attribute, and the counter never lapses: with
     logins = 1 the second login is refused even ten seconds (or a day) after the first. For 1.5 s the counter lapses
     after 1 s already. *)
 Theorem c17_subsecond_window_refuted :
   let cfg := fun w => {| cf_secure := true; cf_samesite := b "Lax"; cf_prefix := b "p"; cf_ingresses := [b "https://h.example.com"];
                          cf_sso_server := false; cf_sso_domain := []; cf_sso_name := []; cf_legacy := false;
-                         cf_rl_enabled := true; cf_rl_logins := 1; cf_rl_window := w |} in
+                         cf_rl_enabled := true; cf_rl_logins := 1; cf_rl_window := w;
+                         cf_seg_prefix := true; cf_rl_ceil := false |} in
   window_seconds (cfg 500000000) = 0 /\
   rl_run (cfg 500000000) None 0 [0; 10 * jsecond; 86400 * jsecond] = [false; true; true] /\
   rl_run (cfg 1500000000) None 0 [0; 1200000000] = [false; false].
 Proof. vm_compute. repeat split; reflexivity. Qed.
 Print Assumptions c17_subsecond_window_refuted.
 
+(** With Max-Age = int(math.Ceil(window.Seconds())) (code since c75583b, model flag cf_rl_ceil = true) every window
+    > 0 is covered, sub-second ones included. Max-Age has a granularity of whole seconds, so what holds is:
+    the cookie lives W = ceil(window) seconds, window <= W < window + 1 s. *)
+Theorem c17_window_rounded_up : forall cfg, cf_rl_ceil cfg = true -> 0 < cf_rl_window cfg ->
+  0 < window_seconds cfg /\
+  cf_rl_window cfg <= window_seconds cfg * jsecond < cf_rl_window cfg + jsecond.
+Proof. exact window_seconds_ceil. Qed.
+Print Assumptions c17_window_rounded_up.
+
+(** Hence, for a counted attempt at time t (the cookie then expires at t + W):
+    - NOT BEFORE the window has passed: an attempt earlier than t + window still sees the counter - it is refused at the
+      limit and counted (restarting the window) below it;
+    - AT THE LATEST less than one second after it: an attempt at or after t + window + 1 s (indeed at or after t + W)
+      is treated exactly like one of a browser without counter.
+    Between t + window and t + W (< 1 s) either can happen, depending on the fraction of the window. *)
+Theorem c17_counter_lapses_after_window : forall cfg n t now,
+  cf_rl_enabled cfg = true -> cf_rl_ceil cfg = true -> 0 < cf_rl_window cfg ->
+  let W := window_seconds cfg * jsecond in
+  (now < t + cf_rl_window cfg ->
+     rl_step cfg (Some (n, Some (t + W))) now =
+     if cf_rl_logins cfg <=? n then (Some (n, Some (t + W)), true) else (Some (n + 1, Some (now + W)), false)) /\
+  (t + cf_rl_window cfg + jsecond <= now ->
+     snd (rl_step cfg (Some (n, Some (t + W))) now) = snd (rl_step cfg None now)).
+Proof.
+  intros cfg n t now He Hc Hw W. destruct (window_seconds_ceil cfg Hc Hw) as [Hpos [Hlo Hhi]]. fold W in Hlo, Hhi. split.
+  - intros H. apply rl_within; [assumption|assumption|]. apply Z.lt_le_trans with (t + cf_rl_window cfg); [exact H|].
+    apply Z.add_le_mono_l. exact Hlo.
+  - intros H. apply (rl_lapsed cfg He n (t + W) now).
+    apply Z.le_trans with (t + cf_rl_window cfg + jsecond); [|exact H].
+    rewrite <- Z.add_assoc. apply Z.add_le_mono_l. apply Z.lt_le_incl. exact Hhi.
+Qed.
+Print Assumptions c17_counter_lapses_after_window.
+
+(** a burst inside the CONFIGURED window (not its rounding): all requests less than `window` after the first;
+    request number k (from 0) is refused iff k >= logins - for every window > 0 *)
+Theorem c17_rate_limit_burst_any_window : forall cfg g0 gaps now,
+  cf_rl_enabled cfg = true -> cf_rl_ceil cfg = true -> 0 < cf_rl_window cfg -> 0 < cf_rl_logins cfg ->
+  Forall (fun g => 0 <= g) gaps -> fold_right Z.add 0 gaps < cf_rl_window cfg ->
+  rl_run cfg None now (g0 :: gaps) = map (fun k => cf_rl_logins cfg <=? Z.of_nat k) (seq 0 (S (List.length gaps))).
+Proof.
+  intros cfg g0 gaps now He Hc Hw Hl Hg Hs. destruct (window_seconds_ceil cfg Hc Hw) as [Hpos [Hlo _]].
+  apply (rl_burst_fresh cfg He Hpos g0 gaps now Hl Hg). apply Z.lt_le_trans with (cf_rl_window cfg); assumption.
+Qed.
+Print Assumptions c17_rate_limit_burst_any_window.
+
+(** the windows of the old refutation under the new code: 500ms lapses (after 1 s), 1.5 s is not cut short *)
+Example c17_subsecond_window_fixed :
+  let cfg := fun w => {| cf_secure := true; cf_samesite := b "Lax"; cf_prefix := b "p"; cf_ingresses := [b "https://h.example.com"];
+                         cf_sso_server := false; cf_sso_domain := []; cf_sso_name := []; cf_legacy := false;
+                         cf_rl_enabled := true; cf_rl_logins := 1; cf_rl_window := w;
+                         cf_seg_prefix := true; cf_rl_ceil := true |} in
+  window_seconds (cfg 500000000) = 1 /\ window_seconds (cfg 1500000000) = 2 /\ window_seconds (cfg 5000000000) = 5 /\
+  window_seconds (cfg 1) = 1 /\
+  rl_run (cfg 500000000) None 0 [0; 499999999; 10 * jsecond; 86400 * jsecond] = [false; true; false; false] /\
+  rl_run (cfg 1500000000) None 0 [0; 1200000000; 2 * jsecond] = [false; true; false].
+Proof. vm_compute. repeat split; reflexivity. Qed.
+
 Example c17_rate_limit_nonvacuous :
   let cfg := {| cf_secure := true; cf_samesite := b "Lax"; cf_prefix := b "p"; cf_ingresses := [b "https://h.example.com"];
                 cf_sso_server := false; cf_sso_domain := []; cf_sso_name := []; cf_legacy := false;
-                cf_rl_enabled := true; cf_rl_logins := 2; cf_rl_window := 5 * jsecond |} in
+                cf_rl_enabled := true; cf_rl_logins := 2; cf_rl_window := 5 * jsecond;
+                cf_seg_prefix := true; cf_rl_ceil := true |} in
   rl_run cfg None 0 [0; jsecond; jsecond; jsecond; 3 * jsecond - 1; jsecond] = [false; false; true; true; true; false].
 Proof. vm_compute. reflexivity. Qed.
